@@ -9,6 +9,7 @@ package main
 import (
 	"bytes"
 	"fmt"
+	"math"
 	"os"
 	"path/filepath"
 	"regexp"
@@ -235,8 +236,8 @@ func gelfTimestampRule(root *insaneJSON.Root, rewritten []byte) (bool, string) {
 		v /= 1000
 	}
 	want := v
-	if v < 1e9 {
-		want = 0 // the clock, canonicalised
+	if v < 1e9 || math.IsInf(v, 0) {
+		want = 0 // the clock, canonicalised (a value beyond the float64 range: repaired in /repo 25ddee1)
 	}
 	d := got - want
 	if d < 0 {
